@@ -355,6 +355,10 @@ class Evaluator:
         return [(v, s if s.exit is not None else s.fork(exit=("ret", v))) for v, s in self.ev(n["e"], st, fp)]
 
     def ev_break(self, n, st, fp):
+        # `break value`: the value travels with the exit (consumers that only test exit[0] are unaffected)
+        val = n.get("e") or n.get("value")
+        if isinstance(val, dict):
+            return [(UNIT, s2.fork(exit=("break", v))) if s2.exit is None else (UNIT, s2) for v, s2 in self.ev(val, st, fp)]
         return [(UNIT, st.fork(exit=("break",)))]
 
     def ev_continue(self, n, st, fp):
@@ -387,7 +391,7 @@ class Evaluator:
                     if s2.exit is None or s2.exit[0] == "continue":
                         work.append((s2.fork(exit=None), depth + 1))
                     elif s2.exit[0] == "break":
-                        done.append((UNIT, s2.fork(exit=None)))
+                        done.append((s2.exit[1] if len(s2.exit) > 1 else UNIT, s2.fork(exit=None)))
                     else:
                         done.append((UNIT, s2))          # return / panic inside the loop
             if ok and done:
@@ -1024,7 +1028,14 @@ class Evaluator:
                 return [(struct(path, parts[-1], [(str(i), v) for i, v in enumerate(vals)]), s)]
             return [(struct(adt, parts[-1], [(str(i), v) for i, v in enumerate(vals)]), s)]
         if path in self.F.fns and self.F.fns[path].get("thir") and not self.opaque_calls(path) and self.inline_pred(path):
-            return self.inline_fn(path, vals, n, s)
+            # remember the type arguments of the call while the generic callee is evaluated (`size_of::<T>()` inside
+            # `emit::<u8>` is the size of u8)
+            stack = self.__dict__.setdefault("_gen_stack", [])
+            stack.append([g for g in (gens or []) if isinstance(g, str)])
+            try:
+                return self.inline_fn(path, vals, n, s)
+            finally:
+                stack.pop()
         w = self.bits(n["ty"])
         if w:
             res = ("call", path, tuple(vals), w, self.fresh())
@@ -1034,7 +1045,8 @@ class Evaluator:
             res = ("obj", "%s#%d" % (_short_path(path), self.fresh()), n["ty"])
         s2 = s.effect(("call", path, tuple(vals), res))
         if n["ty"] == "!":
-            s2 = s2.fork(exit=("panic", path))
+            macs = tuple(str(m).rsplit("::", 1)[-1].lstrip("$") for m in (n.get("mac") or []))
+            s2 = s2.effect(("panic_in", fp, macs)).fork(exit=("panic", path))      # which function's own code raised it, through which macro
         return [(res, s2)]
 
     def inline_fn(self, path, vals, n, s):
@@ -1326,6 +1338,15 @@ def m_atomic_store(ev, vals, n, s, path, gens):
 @suffix_model(r"core::mem::(size_of|align_of)$")
 def m_size_of(ev, vals, n, s, path, gens):
     sz = _size_of(gens[0]) if gens else None
+    if sz is None and gens and re.fullmatch(r"[A-Z]\w{0,3}", str(gens[0])):
+        # a type parameter of the function being inlined: the nearest enclosing call with exactly one type argument
+        for frame in reversed(getattr(ev, "_gen_stack", [])):
+            concrete = [g for g in frame if not re.fullmatch(r"[A-Z]\w{0,3}", g) and not g.startswith("'")]
+            if len(concrete) == 1:
+                sz = _size_of(concrete[0])
+                break
+            if concrete:
+                break
     if sz is None:
         return None
     return [(T.K(64, sz), s)]
@@ -1641,6 +1662,15 @@ def m_iter_collect(ev, vals, n, s, path, gens):
     v = ev.deref_val(vals[0], s)
     if isinstance(v, tuple) and v and v[0] == "iterc" and "Vec<" in (n.get("ty") or ""):
         return [(("array", tuple(v[1][v[2]:])), s)]
+    return None
+
+
+@suffix_model(r"intrinsics::write_box_via_move$|boxed::box_assume_init_into_vec_unsafe$|slice::<impl \[T\]>::into_vec$")
+def m_vec_literal(ev, vals, n, s, path, gens):
+    """the lowering of `vec![a, b, c]`: a vector holding exactly the listed elements"""
+    v = ev.deref_val(vals[-1], s)
+    if isinstance(v, tuple) and v and v[0] == "array":
+        return [(v, s)]
     return None
 
 
@@ -2098,17 +2128,91 @@ def m_fmt_arg(ev, vals, n, s, path, gens):
 
 SUFFIX_MODELS.insert(0, SUFFIX_MODELS.pop())
 
-_FMT_RE = re.compile(r'''^\s*(?:\w+::)*(?:format|panic|println|write|warn|info)!\s*\(\s*"((?:[^"\\]|\\.)*)"''', re.S)
+_FMT_RE = re.compile(r'''^\s*(?:\w+::)*(?:format|panic|println|write|writeln|warn|info)!\s*\(\s*(?:[A-Za-z_][\w.]*\s*,\s*)?"((?:[^"\\]|\\.)*)"''', re.S)
 _HOLE = re.compile(r"\{\{|\}\}|\{([^{}:]*)(?::([^{}]*))?\}")
 
 
 def m_format(ev, vals, n, s, path, gens):
     """alloc::fmt::format(Arguments): rebuild the text from the macro call-site snippet.  Pieces are
     literal strings or ('arg', spec, value, type)"""
+    r = _format_pieces(ev, vals, n, s)
+    if r is None:
+        return [(("obj", "fmt", n["ty"]), s)]
+    return [((("lit", "".join(pcs)) if all(isinstance(x, str) for x in pcs) else ("fmt", tuple(pcs))), st) for pcs, st in r]
+
+
+def _display_impl(ev, ty):
+    t = norm_path(ty or "")
+    for cand in ("<%s as core::fmt::Display>::fmt" % t,):
+        if cand in ev.F.fns and ev.F.fns[cand].get("thir"):
+            return cand
+    return None
+
+
+def _expand_display(ev, pieces, n, s):
+    """`{}` of a value whose type has a Display impl in the crate: the pieces its `fmt` writes (it may fork)"""
+    alts = [([], s)]
+    for pc in pieces:
+        if not (isinstance(pc, tuple) and pc and pc[0] == "arg" and pc[1] == "" and isinstance(pc[2], tuple) and pc[2] and pc[2][0] == "struct"
+                and _display_impl(ev, pc[3])):
+            alts = [(acc + [pc], st) for acc, st in alts]
+            continue
+        impl = _display_impl(ev, pc[3])
+        nxt = []
+        for acc, st in alts:
+            base = len(st.effects)
+            r = ev.inline_fn(impl, [pc[2], ("obj", "FORMATTER", "&mut core::fmt::Formatter")], n, st)
+            for _rv, st2 in (r or []):
+                if not st2.feasible:
+                    continue
+                wrote = [e for e in st2.effects[base:] if e[0] == "fmt_write"]
+                other = tuple(e for e in st2.effects[base:] if e[0] != "fmt_write" and not (e[0] == "panic_if" and e[1] == T.FALSE))
+                if (st2.exit is not None and st2.exit[0] == "panic") or any(e[0] in ("store", "call") for e in other):
+                    nxt.append((acc + [pc], st))        # the impl does something else: leave the hole opaque
+                    continue
+                nxt.append((acc + [x for e in wrote for x in e[1]], st2.fork(effects=st2.effects[:base] + other, exit=st.exit)))
+        alts = nxt or [(acc + [pc], st) for acc, st in alts]
+        if len(alts) > 16:
+            return [(list(pieces), s)]
+    out = []
+    for acc, st in alts:
+        merged = []
+        for x in acc:
+            if isinstance(x, str) and merged and isinstance(merged[-1], str):
+                merged[-1] += x
+            else:
+                merged.append(x)
+        out.append((merged, st))
+    return out
+
+
+@suffix_model(r"fmt::Formatter(<'\w+>)?::write_fmt$|fmt::Write>::write_fmt$|fmt::Write::write_fmt$")
+def m_write_fmt(ev, vals, n, s, path, gens):
+    """write!(f, ..) inside a Display impl: recorded as the pieces written"""
+    r = _format_pieces(ev, vals[1:], n, s)
+    if r is None:
+        return None
+    return [(struct("core::result::Result", "Ok", (("0", UNIT),)), st.effect(("fmt_write", tuple(pcs)))) for pcs, st in r]
+
+
+@suffix_model(r"fmt::Formatter(<'\w+>)?::write_str$")
+def m_write_str(ev, vals, n, s, path, gens):
+    v = ev.deref_val(vals[1], s)
+    if isinstance(v, tuple) and v and v[0] == "lit":
+        return [(struct("core::result::Result", "Ok", (("0", UNIT),)), s.effect(("fmt_write", (str(v[1]),))))]
+    return None
+
+
+SUFFIX_MODELS.insert(0, SUFFIX_MODELS.pop())
+SUFFIX_MODELS.insert(0, SUFFIX_MODELS.pop())       # both take precedence over the generic core::fmt model
+
+
+def _format_pieces(ev, vals, n, s):
+    """-> [(pieces, state)] for a format_args!-based call, or None when the template is not visible"""
     snip = n.get("snip") or ""
     m = _FMT_RE.match(snip)
     if not m:
-        return [(("obj", "fmt", n["ty"]), s)]
+        return None
     tmpl = m.group(1).encode().decode("unicode_escape") if "\\" in m.group(1) else m.group(1)
     args = []
     fa = vals[0] if vals else None
@@ -2171,9 +2275,7 @@ def m_format(ev, vals, n, s, path, gens):
             merged[-1] += x
         else:
             merged.append(x)
-    if all(isinstance(x, str) for x in merged):
-        return [(("lit", "".join(merged)), s)]
-    return [(("fmt", tuple(merged)), s)]
+    return _expand_display(ev, merged, n, s)
 
 
 MODELS["core::fmt::format"] = m_format
